@@ -594,10 +594,21 @@ impl Interpreter {
     let state_brrw = self.state.borrow();
     let mut plan_brrw = state_brrw.plan.borrow_mut();
     let mut ctx = CompileCtx::new();
-    for step in plan_brrw.iter() {
+    // Values without a bytecode encoding panic in the constant writer; report that as an error.
+    let bytes = catch_unwind(AssertUnwindSafe(|| -> MResult<Vec<u8>> {
+      for step in plan_brrw.iter() {
         step.compile(&mut ctx)?;
-    }
-    let bytes = ctx.compile()?;
+      }
+      ctx.compile()
+    }))
+    .map_err(|err| {
+      let details = match (err.downcast_ref::<&'static str>(), err.downcast_ref::<String>()) {
+        (Some(msg), _) => msg.to_string(),
+        (_, Some(msg)) => msg.clone(),
+        _ => "Non-string panic".to_string(),
+      };
+      MechError::new(UnknownPanicError { details }, None).with_compiler_loc()
+    })??;
     self.context = Some(ctx);
     Ok(bytes)
   }
